@@ -74,8 +74,13 @@ def event_of(lang, obs, c, extra_provided=()):
         if "T" in used and (c["trigger"] == "generic_param" or c["second"] == "generic_param"):
             typevars = ["T"]
         funcs = [n for n in used if n.startswith(("serialize_", "deserialize_", "parse_"))]
-    # TypeScript: ReviverFunc / ReplacerFunc are definitions typeshare adds for the user to call; the generated code never
-    # USES them, so the property has nothing to demand there (an earlier version of this check did: false alarm, removed)
+    # TypeScript: ReviverFunc / ReplacerFunc are what typeshare brings in for a SPECIAL Rust type that a configured mapping renders as a
+    # type with a custom JSON translation ("Vec<u8>" = "Uint8Array"): wherever that type stands in the output (field, payload, alias,
+    # nested), the file defines both helpers. Not demanded: a USER type mapped to Date (no translation exists; an earlier version of this
+    # check demanded the helpers there - a false alarm, removed) and the built-in OffsetDateTime -> Date, whose reviver is keyed by FIELD
+    # names and is emitted for whole-field uses only.
+    if lang == "typescript" and "mapped_bytes" in (c["trigger"], c["second"]):
+        requires = ["ReviverFunc", "ReplacerFunc"]
     # identifiers of the mapping targets that this case really uses (the user's own text)
     import re as _re
     user_names = []
